@@ -395,7 +395,9 @@ def save_score_midi(
 
         def to_ppq(t):
             # convert div times to new ppq
-            return int(ppq * (qm(t) - ftp))
+            # (round, do not truncate: the quarter map returns floats and e.g.
+            # triplet positions come out as 24.999999999999996)
+            return int(np.round(ppq * (qm(t) - ftp)))
 
         for tp in part.iter_all(score.Tempo):
             tempos[to_ppq(tp.start.t)] = MetaMessage(
